@@ -21,7 +21,8 @@ inductive Op
   | shareMint (d : String) (x : Int)
   /-- exit / unbond -/
   | shareBurn (d : String) (x : Int)
-  /-- ClaimVesting / VestNow: the native token is minted by the commitment module -/
+  /-- ClaimVesting / VestNow (messages, and ClaimVesting for the provider-rewards account in the estaking epoch hook): the native
+      token is minted by the commitment module against vested Eden -/
   | vestingRelease (x : Int)
   /-- burner epoch hook, as coded: any denom -/
   | burnerBurn (d : String) (x : Int)
